@@ -305,6 +305,80 @@ def check_big(n, acc):
             check(("big", n, lead), big_library(n, lead), order, on_top, acc)
 
 
+class _ReenteringEntry(Entry):
+    """A user's Entry subclass whose copy hook uses the SAME sorter instance on another library while the first sort is
+    copying its blocks (think: a block that keeps a sorted index of its cross-references) - once, then it is a plain copy."""
+
+    hook = None  # [sorter, other_library, results]
+
+    def __deepcopy__(self, memo):
+        h = type(self).hook
+        if h is not None:
+            type(self).hook = None
+            try:
+                h[2].append(("ok", [tag(b) for b in h[0].transform(h[1]).blocks]))
+            except Exception as ex:
+                h[2].append(("raised", type(ex).__name__))
+        new = Entry.__new__(type(self))
+        import copy as _c
+
+        new.__dict__.update(_c.deepcopy(self.__dict__, memo))
+        return new
+
+
+def check_sort_in_flight(acc):
+    """Two sorts in flight on one sorter instance: the outer one is what it is without the inner one, the inner one what it
+    is alone (inline from a block's copy hook, and from a second thread started there)."""
+    outer_names = ("IC", "Eb", "Sa", "EC", "Ea", "P")
+    inner_names = ("Ea2", "IC", "Eb", "Sa")
+    for order in (ORDERS[0], ORDERS[3], ORDERS[-1]):
+        types = tuple(TYPES[i] for i in order)
+        for on_top in (True, False):
+            for pos in (0, 3, 6):
+                for threaded in (False, True):
+                    case = {"sort_in_flight": [list(order), on_top, pos, threaded]}
+                    acc.trace(2)
+                    acc.case(nontrivial_key=("sort-in-flight", order, on_top, pos, threaded))
+                    acc.count("sorts_in_flight")
+                    mk = lambda: SortBlocksByTypeAndKeyMiddleware(block_type_order=types, preserve_comments_on_top=on_top)
+                    hooked = lambda: _ReenteringEntry("article", "m", [], start_line=0, raw="@article{m}#99")
+                    def build_outer():
+                        lib0 = build(outer_names)
+                        bl = list(lib0.blocks)
+                        bl.insert(pos, hooked())
+                        return Library(bl)
+                    try:
+                        exp_outer = [tag(b) for b in mk().transform(build_outer()).blocks]
+                        exp_inner = ("ok", [tag(b) for b in mk().transform(build(inner_names)).blocks])
+                        sorter = mk()
+                        results = []
+                        if threaded:
+                            import threading
+
+                            class _T:
+                                def transform(self, lib):
+                                    box = []
+                                    t = threading.Thread(target=lambda: box.append(sorter.transform(lib)))
+                                    t.start()
+                                    t.join()
+                                    return box[0]
+
+                            _ReenteringEntry.hook = [_T(), build(inner_names), results]
+                        else:
+                            _ReenteringEntry.hook = [sorter, build(inner_names), results]
+                        got = [tag(b) for b in sorter.transform(build_outer()).blocks]
+                    except Exception as ex:
+                        acc.exception(ex, case, "SortBlocksByTypeAndKeyMiddleware.transform")
+                        continue
+                    finally:
+                        _ReenteringEntry.hook = None
+                    acc.step(("sort", order, on_top), ("inner at", pos, threaded), tuple(got))
+                    if got != exp_outer:
+                        acc.violation({"oracle": "outer_sort_unaffected_by_a_sort_in_flight", "comments_on_top": on_top}, {"case": case, "observed": got, "expected": exp_outer})
+                    elif not results or results[0] != exp_inner:
+                        acc.violation({"oracle": "inner_sort_in_flight_equals_sort_alone", "comments_on_top": on_top}, {"case": case, "observed": repr(results[:1]), "expected": repr(exp_inner)})
+
+
 def check_flag_readings(acc):
     """`preserve_comments_on_top` is annotated bool; a non-bool (1, 0, "yes", None) must still mean ONE thing: the sorter
     behaves on every library as the True configuration or as the False configuration does, throughout."""
@@ -374,6 +448,7 @@ def run_shard(shard, tier, acc):
         run_libs([()] + [(a,) for a in NAMES], acc)
         return
     if shard[0] == "special":
+        check_sort_in_flight(acc)
         check_flag_readings(acc)
         return run_special(acc)
     if shard[0] == "mid":
@@ -409,6 +484,8 @@ def replay(case, acc):
         return check_construction_order(acc)
     if "flag_reading" in case:
         return check_flag_readings(acc)
+    if "sort_in_flight" in case:
+        return check_sort_in_flight(acc)
     if "special_library" in case:
         return run_special(acc)
     if "leak" in case:
